@@ -757,6 +757,11 @@ def check_components(prog: Program, res: Result) -> None:
         comp = re.search(rf"(\w+) = {me}\.node_connected_component\({a_}\)", g)
         if "node_connected_component(" not in g:
             why = "no component search in the guarded body"
+        elif comp is None and re.search(
+                rf"\.append\({me}\.node_connected_component\({a_}\)\)", g) \
+                and not re.search(rf"{V}\.(update|add)\(|{V} \|=|{V} = ", g):
+            # the component is recorded but has no name: nothing is merged
+            why = "component not merged into visited"
         elif comp is None:
             why = None      # search present, spelling not followed
         elif not re.search(rf"\.append\({comp.group(1)}\)", g):
